@@ -65,7 +65,7 @@ def classify_fault(message):
                     "Invalid format specifier", "cannot convert", "integer argument expected",
                     "Replacement index", "out of range", "empty range", "non-integer arg",
                     "Result too large", "Precision not allowed", "Sign not allowed",
-                    "Cannot specify", "object cannot be interpreted as an integer",
+                    "Cannot specify", "object cannot be interpreted as an integer", "doesn't define __",
                     "float modulo", "modulo by zero", "argument must be a string or a",
                     "Invalid conversion", "expected '}'", "Single '}'", "Single '{'", "unmatched",
                     "too many", "positional argument", "attribute name"]
@@ -220,7 +220,7 @@ def main():
     internal = internal_words()
     stats = {'inputs': 0, 'by_stream': {}, 'outcomes': {}, 'executed': 0, 'exec_outcomes': {},
              'data_faults': {}, 'rules': 0}
-    n = 40000 if chk.thorough else 5000
+    n = 120000 if chk.thorough else 15000
     inputs = []
     for i in range(n):
         k = i % 10
